@@ -488,38 +488,58 @@ func (v Value) opMod(b Value) Value {
 		return Value{t: untypedInt, num: float64(int(v.num) % int(b.num))}
 	}
 }
+
+// shiftType is the result type of a shift: the type of the left operand (an untyped left operand keeps adopting
+// the type of the count, as before).
+func shiftType(v, b Value) Type {
+	if v.t&typedNumberMask != 0 {
+		return v.t
+	}
+	return mixType(v.t, b.t)
+}
+
+// shiftCount is the shift count as an unsigned magnitude; a negative count is a run-time panic, as in Go.
+func shiftCount(b Value) uint {
+	if b.num < 0 {
+		panic("negative shift amount")
+	}
+	return uint(b.num)
+}
+
 func (v Value) opBitLsh(b Value) Value {
-	t := mixType(v.t, b.t)
+	t := shiftType(v, b)
+	n := shiftCount(b)
 	switch t {
 	case TypeFloat64:
-		return Value{t: t, num: float64(int(v.num) << int(b.num))}
+		return Value{t: t, num: float64(int(v.num) << n)}
 	case TypeInt32:
-		return Value{t: t, num: float64(int32(v.num) << int32(b.num))}
+		return Value{t: t, num: float64(int32(v.num) << n)}
 	case TypeUint32:
-		return Value{t: t, num: float64(uint32(v.num) << uint32(b.num))}
+		return Value{t: t, num: float64(uint32(v.num) << n)}
 	case TypeInt8:
-		return Value{t: t, num: float64(int8(v.num) << int8(b.num))}
+		return Value{t: t, num: float64(int8(v.num) << n)}
 	case TypeUint8:
-		return Value{t: t, num: float64(byte(v.num) << byte(b.num))}
+		return Value{t: t, num: float64(byte(v.num) << n)}
 	default:
-		return Value{t: untypedInt, num: float64(int(v.num) << int(b.num))}
+		return Value{t: untypedInt, num: float64(int(v.num) << n)}
 	}
 }
 func (v Value) opBitRsh(b Value) Value {
-	t := mixType(v.t, b.t)
+	t := shiftType(v, b)
+	n := shiftCount(b)
 	switch t {
 	case TypeFloat64:
-		return Value{t: t, num: float64(int(v.num) >> int(b.num))}
+		return Value{t: t, num: float64(int(v.num) >> n)}
 	case TypeInt32:
-		return Value{t: t, num: float64(int32(v.num) >> int32(b.num))}
+		return Value{t: t, num: float64(int32(v.num) >> n)}
 	case TypeUint32:
-		return Value{t: t, num: float64(uint32(v.num) >> uint32(b.num))}
+		return Value{t: t, num: float64(uint32(v.num) >> n)}
 	case TypeInt8:
-		return Value{t: t, num: float64(int8(v.num) >> int8(b.num))}
+		return Value{t: t, num: float64(int8(v.num) >> n)}
 	case TypeUint8:
-		return Value{t: t, num: float64(byte(v.num) >> byte(b.num))}
+		return Value{t: t, num: float64(byte(v.num) >> n)}
 	default:
-		return Value{t: untypedInt, num: float64(int(v.num) >> int(b.num))}
+		return Value{t: untypedInt, num: float64(int(v.num) >> n)}
 	}
 }
 func (v Value) opBitAnd(b Value) Value {
